@@ -1,6 +1,7 @@
 import SsqlVerif.Props.C15
 #print axioms C15.nfa_accepts_iff_lang
 #print axioms C15.compileNode_correct
+#print axioms C15.pattern_tree_lang
 #print axioms C15.emitted_match_valid
 #print axioms C15.skip_past_last_row_disjoint
 #print axioms C15.match_starts_increasing
